@@ -7,6 +7,7 @@ behaviour (they read, or attempt operations whose outcome the property constrain
 Monitor.tla evaluates the property's predicates on the recorded trace.
 """
 import json
+import zlib
 import os
 import random
 import time
@@ -31,6 +32,9 @@ VALUE_POOL = [
     _r(9007199254740992.0), _r(1e15 + 0.3), _r(0.1), _r(1.0), _r(-1.0),
     "t:", "t:a", "t:\u00e9", "t:\u4e2d\u6587", "t:a'b\"c", "t:line\nbreak\ttab", "t: lead and trail ", "t:" + "long" * 40, "t:0", "t:NULL", "t:1.5",
     "x:", "x:00", "x:ff00ff", "x:" + "ab" * 100, "x:0000000000", "x:7f80",
+    # TEXT that is not valid UTF-8 (lone 0xFF, overlong NUL, encoded surrogate, truncated sequence): a value that cannot be
+    # stored must be refused with an error, never altered
+    "u:61ff62", "u:c080", "u:eda080", "u:e282",
 ]
 KEY_POOLS_C08 = [
     ["i:-9223372036854775808", "i:0", "i:9223372036854775807"],
@@ -105,7 +109,9 @@ def instrument(prop, beh, idx, rng):
     if prop == "C08":
         pool = KEY_POOLS_C08[rng.randrange(len(KEY_POOLS_C08))]
         salt = rng.randrange(1 << 30)
-        values = lambda c, wt: VALUE_POOL[(hash((c, wt)) ^ salt) % len(VALUE_POOL)]
+        # (storable values only here; the unstorable ones are written by the explicit statements below, on single-node trees)
+        mpool = [v for v in VALUE_POOL if not v.startswith("u:")]
+        values = lambda c, wt: mpool[(zlib.crc32(("%s/%s" % (c, wt)).encode()) ^ salt) % len(mpool)]
     keymap = {"k1": pool[0], "k2": pool[1], "k3": pool[2]}
     steps = base_steps(beh, rng, keymap, values)
     writers = []
@@ -332,6 +338,12 @@ def instrument(prop, beh, idx, rng):
         # every pool value once, in both non-key columns and as a key where it can be one
         vals = list(VALUE_POOL)
         rng.shuffle(vals)
+        bad = [v for v in vals if v.startswith("u:")]
+        vals = [v for v in vals if not v.startswith("u:")]
+        if not (0 < epn <= 4):
+            # unstorable TEXT only on single-node trees: on a multi-level tree the refused INSERT survives the forced
+            # rollback in the handle's working tree (KF-MAST-1) and poisons every later commit of that handle (KF-MAST-5)
+            vals[2:2] = bad[:2]
         usedk = set(num_id(x) for x in keymap.values())
         for j, v in enumerate(vals[:10]):
             out.append({"op": "stmt", "c": w, "id": "v%d" % j, "kind": "ins", "key": "i:%d" % (3000 + j), "cols": {"a": v, "b": vals[-1 - j]}, "wt": 50 + j})
@@ -347,6 +359,9 @@ def instrument(prop, beh, idx, rng):
                  {"op": "open", "c": fresh(), "mode": "ro"}]
         if any(lit == "t:" for st in out for lit in ([st.get("key")] + list(st.get("cols", {}).values()))):
             feats.add("empty_text")
+        if any(str(lit).startswith("u:") for st in out for lit in ([st.get("key")] + list(st.get("cols", {}).values()))):
+            # a refused statement in autocommit mode is a forced rollback
+            feats.add("rollback_or_failed_commit")
     elif prop == "C05":
         # observations around transactions
         intx = {}
